@@ -104,7 +104,7 @@ func NewContracts() *Contracts {
 var clauseKeywords = map[string]bool{
 	"props": true, "requires": true, "ensures": true, "assigns": true, "pure": true, "trusted": true,
 	"assumed": true, "terminates": true, "loop": true, "measure": true, "maypanic": true, "note": true,
-	"let": true, "model": true, "recursion_assumed": true,
+	"let": true, "model": true, "recursion_assumed": true, "assume_nopanic": true,
 }
 
 // normaliseFuncKey turns "(*Cursor).Pos" into "(*pkgpath.Cursor).Pos" and "Name" into "pkgpath.Name".
@@ -422,6 +422,10 @@ func (cs *Contracts) LoadFile(path, pkgPath string) error {
 				cs.AssumedList = append(cs.AssumedList, fmt.Sprintf("recursion_assumed %s: %s", cur.Key, rest))
 			case "maypanic":
 				cur.MayPanic = true
+			case "assume_nopanic":
+				cur.NoPanic = false
+				cur.MayPanic = true
+				cs.AssumedList = append(cs.AssumedList, fmt.Sprintf("assume_nopanic %s: index/slice/nil/assert sites in this function (and code inlined into it) are assumed safe here, not proved: %s", cur.Key, rest))
 			case "note":
 				cur.Note += rest
 			case "model":
